@@ -1,6 +1,8 @@
 #!/bin/bash
 # like seed_matrix.sh for an arbitrary directory of seed dirs ($1), tier from TIER
 cd /verif
+# a private copy of the tool: the matrix takes long and bin/jsverif may be rebuilt meanwhile
+SNAP=$(mktemp /tmp/jsverif-snap.XXXXXX); cp "${JSVERIF_BIN:-/verif/bin/jsverif}" "$SNAP"; chmod +x "$SNAP"; export JSVERIF_BIN="$SNAP"; trap 'rm -f "$SNAP"' EXIT
 one() {
   d="$1"; id=$(basename "$d")
   wt=$(mktemp -d /tmp/sm-wt.XXXXXX); rmdir "$wt"; vd=$(mktemp -d /tmp/sm-vd.XXXXXX)
